@@ -56,6 +56,10 @@ class IndexScenario(ChangeScenario):
                 return {'k1': name, 'k2': name + '!'}
             if code == 'scalar':
                 return name
+            if code == 'same':
+                return {'k1': 'shared'}      # a value that other objects yield too (e.g. an owner, a zone, a colour)
+            if code == 'other':
+                return {'k1': 'another'}
             if code == 'empty':
                 return {}        # a result like any other: the object now contributes nothing
             if code == 'none':
@@ -143,6 +147,10 @@ class IndexScenario(ChangeScenario):
                         model[name] = {'k1': name, 'k2': name + '!'}
                     elif code == 'scalar':
                         model[name] = {None: name}
+                    elif code == 'same':
+                        model[name] = {'k1': 'shared'}
+                    elif code == 'other':
+                        model[name] = {'k1': 'another'}
                     elif code == 'empty':
                         model[name] = {}
                     elif code in ('none', 'arb'):
@@ -177,10 +185,10 @@ class IndexScenario(ChangeScenario):
         return out
 
 
-def histories(depth: int, names: list[str]) -> list[list[tuple]]:
+def histories(depth: int, names: list[str], codes: list[str] | None = None) -> list[list[tuple]]:
     alphabet: list[tuple] = [('wait',)]
     for n in names:
-        alphabet += [('set', n, c) for c in CODES] + [('label', n, 'idx', 'no'), ('label', n, 'idx', 'yes'), ('delete', n)]
+        alphabet += [('set', n, c) for c in (codes or CODES)] + [('label', n, 'idx', 'no'), ('label', n, 'idx', 'yes'), ('delete', n)]
     out = []
     for d in range(1, depth + 1):
         for combo in itertools.product(alphabet, repeat=d):
@@ -316,6 +324,9 @@ def run(tier: str, seed: int) -> CheckResult:
     depth = 3 if tier == 'quick' else 3
     hist2 = [build_index(h, sp, delays=False, early_user=False, time_dev=False) for h in histories(depth, ['a', 'b']) for sp in ((0.5,) if tier == 'quick' else (0.5, 3.0))]
     hist3 = [build_index(h, 0.5, delays=False, early_user=False, time_dev=False) for h in histories(2 if tier == 'quick' else 3, ['a', 'b', 'c'])]
+    # objects that yield EQUAL values under one key (the index is a multiset per key: one entry per object)
+    hist2 += [build_index(h, 0.5, delays=False, early_user=False, time_dev=False) for h in histories(4, ['a', 'b'], codes=['same', 'other', 'k1'])
+              if sum(1 for a in h if a[0] == 'set') >= 3]
     deep = [] if tier == 'quick' else [build_index(h, 0.5, delays=False, early_user=False, time_dev=False)
                                        for h in histories(4, ['a', 'b']) if sum(1 for a in h if a[0] == 'set') <= 3 and any(a[0] in ('delete', 'label') for a in h)]
     barrier = [BarrierScenario(n1=n1, n2=n2, slow_index=slow, handlers_on_second=h2)
